@@ -31,8 +31,12 @@ def _arr(x):
 
 
 def spread_of(A, B):
+    """sqrt(2(1-R)); mathematically R <= 1, so a radius that the oracle's own rounding puts within 1e-12 above one
+    (all energy in one direction bin) is one - otherwise the reference itself would be NaN."""
     with np.errstate(all="ignore"):
-        return np.sqrt(2 - 2 * np.sqrt(A ** 2 + B ** 2)) * DEG
+        R = np.sqrt(np.asarray(A, dtype=float) ** 2 + np.asarray(B, dtype=float) ** 2)
+        R = np.where((R > 1) & (R < 1 + 1e-12), 1.0, R)
+        return np.sqrt(2 - 2 * R) * DEG
 
 
 def dir_of(A, B):
@@ -130,6 +134,15 @@ def run_1d(c):
         require(O.close(gpd, rd[ar, idx], rel=0, abs_=1e-10).all(), "peak_direction_uses_peak_moments",
                 lambda: f"{gpd} vs {rd[ar, idx]} idx={idx}")
         require(O.close(gps, rs[ar, idx], rel=0, abs_=1e-9).all(), "peak_spread_uses_peak_moments", "")
+    # the definitions hold for every later query of the same object, whatever was asked before: after the banded
+    # queries above, the full-range averages must still be those of the spectrum as supplied
+    for m in ("a1", "b1"):
+        val, _, m0 = O.weighted_mean(f, a[m], e, 0.0, float("inf"))
+        got = _arr(getattr(spec, "mean_" + m)()).reshape(n)
+        with np.errstate(all="ignore"):
+            ok = O.close(got, val, rel=0, abs_=1e-12) | ~(m0 > 0)
+        require(ok.all(), f"mean_{m}_full_range_after_banded_queries",
+                lambda: f"earlier band=[{fmin!r},{fmax!r}) got={got[~ok][:3]!r} ref={val[~ok][:3]!r}")
     classes = ["band_" + c["band"], "layout_" + sc["layout"], "moments_" + sc["moment_kind"]]
     if sc.get("history"):
         classes.append("object_modified_in_place_after_earlier_queries")
